@@ -133,8 +133,12 @@ def noMixedIndexRT (env : Env) (rt : RT) : Bool :=
     | _ => false) env rt
 
 /-- hypothesis `NoEmptyIntersection` (C12): `allOf []` accepts everything and reports nothing -/
+def isEmptyAllOf : RT → Bool
+  | .allOf [] => true
+  | _ => false
+
 def noEmptyIntersection (env : Env) (rt : RT) : Bool :=
-  !anyInEnv (fun t => match t with | .allOf [] => true | _ => false) env rt
+  !anyInEnv isEmptyAllOf env rt
 
 end RT
 end BeffVerif
